@@ -91,3 +91,16 @@ def project(l0: LT, l1: LT, l2: int, l3: int, n: int, b0: bool) -> bool:
     if not why(same_json(got2, got), "compiled expressions differ"):
         return ok(False)
     return ok(why(same_json(doc, before), "document modified"))
+
+
+def unchanged(l0: LT, l1: LT, l2: int, l3: int, n: int, b0: bool) -> bool:
+    """Overlapping selections (a container and something inside it): whatever the projection, the document is not modified.
+
+    pre: 0 <= n <= MAXN
+    pre: small(l0, l1)
+    post: _
+    """
+    doc = spines.build(SPINE, [l0, l1, l2, l3, l0, l1], n, [b0, True, True])
+    before = spines.build(SPINE, [l0, l1, l2, l3, l0, l1], n, [b0, True, True])
+    list(ENV.query(MATCHQ, doc).select(*EXPRS, projection=STYLE))
+    return ok(why(same_json(doc, before), "document modified by projection", MATCHQ, EXPRS, doc, before))
